@@ -786,6 +786,46 @@ class Executor:
                 return
             if isinstance(k, tuple) and len(k) == 2 and isinstance(k[0], int) and isinstance(k[1], slice) and isinstance(obj.items[k[0]], VList):
                 return self.setitem(obj.items[k[0]], k[1], v)
+            if isinstance(k, tuple) and k and all((isinstance(x, int) and not isinstance(x, bool)) or
+                                                  (isinstance(x, slice) and all(y is None or isinstance(y, int) for y in (x.start, x.stop, x.step))) for x in k) \
+                    and any(isinstance(x, slice) for x in k):
+                # numpy basic-index assignment a[i, lo:hi, ...] = v with broadcasting of scalars and length-1 axes
+                def nd_set(a, ks, val):
+                    if not isinstance(a, VList):
+                        raise PyRaise('IndexError', 'too many indices for array')
+                    k0 = ks[0]
+                    if isinstance(k0, int):
+                        try:
+                            tgt = a.items[k0]
+                        except IndexError:
+                            raise PyRaise('IndexError', 'index %r out of range' % (k0,))
+                        if len(ks) == 1:
+                            if isinstance(tgt, VList):
+                                nd_set(a, [slice(k0, k0 + 1 if k0 != -1 else None)], VList([val], 'ndarray') if isinstance(val, VList) else val)
+                            else:
+                                a.items[k0] = val
+                        else:
+                            nd_set(tgt, ks[1:], val)
+                        return
+                    idx = list(range(len(a.items)))[k0]
+                    if isinstance(val, VList):
+                        vals = val.items if len(val.items) == len(idx) else (val.items * len(idx) if len(val.items) == 1 else None)
+                        if vals is None:
+                            raise PyRaise('ValueError', 'could not broadcast input array into shape')
+                    else:
+                        vals = [val] * len(idx)
+                    for i, x in zip(idx, vals):
+                        if len(ks) > 1:
+                            nd_set(a.items[i], ks[1:], x)
+                        elif isinstance(a.items[i], VList):
+                            nd_set(a.items[i], [slice(None)], x)
+                        else:
+                            if isinstance(x, VList):
+                                raise PyRaise('ValueError', 'setting an array element with a sequence')
+                            a.items[i] = x
+                nd_set(obj, list(k), v)
+                self._mutated(obj, 'setitem')
+                return
             if isinstance(k, VList) and k.kind == 'ndarray' and len(k.items) == len(obj.items) and is_scalar(exact(v)) and k.items \
                     and all(isinstance(i, (bool, VList)) or (isinstance(i, z3.ExprRef) and z3.is_bool(i)) for i in k.items):
                 # boolean-mask assignment arr[mask] = scalar
@@ -1028,6 +1068,13 @@ class Executor:
         if isinstance(a, Tm) or isinstance(b, Tm):
             return Tm('op:' + name, a, b)
         if isinstance(a, str) and name == 'Mod':
+            def concrete(v):
+                return isinstance(v, (int, str, Fraction)) or (isinstance(v, tuple) and all(concrete(c) for c in v))
+            if concrete(b):
+                try:
+                    return a % (tuple(int(c) if isinstance(c, Fraction) and c.denominator == 1 else c for c in b) if isinstance(b, tuple) else (int(b) if isinstance(b, Fraction) and b.denominator == 1 else b))
+                except (TypeError, ValueError) as e:
+                    raise PyRaise(type(e).__name__, str(e))
             return Tm('strformat', a, b)
         if isinstance(a, str) and isinstance(b, str) and name == 'Add':
             return a + b
@@ -1043,6 +1090,20 @@ class Executor:
         # numpy-style elementwise on ndarray-kind lists
         if isinstance(a, VList) and a.kind == 'ndarray' or isinstance(b, VList) and b.kind == 'ndarray':
             if isinstance(a, VList) and isinstance(b, VList):
+                # numpy broadcasting aligns trailing axes: the lower-rank operand gets leading singleton axes
+                def rank(v):
+                    r = 0
+                    while isinstance(v, VList):
+                        r += 1
+                        v = v.items[0] if v.items else None
+                    return r
+                ra, rb = rank(a), rank(b)
+                while ra < rb:
+                    a = VList([a], 'ndarray')
+                    ra += 1
+                while rb < ra:
+                    b = VList([b], 'ndarray')
+                    rb += 1
                 if len(a.items) != len(b.items) and len(a.items) == 1:
                     return VList([self.binop(op, a.items[0], y) for y in b.items], 'ndarray')     # numpy broadcasting of a length-1 axis
                 if len(a.items) != len(b.items) and len(b.items) == 1:
@@ -1358,6 +1419,12 @@ class Executor:
             return PyFn(table[name], 'list.' + name)
         if name in getattr(obj, 'attrs', {}):
             return obj.attrs[name]
+        if name == 'T' and obj.kind == 'ndarray':
+            if obj.items and all(isinstance(r, VList) and r.items and not isinstance(r.items[0], VList) for r in obj.items):
+                return VList([VList([r.items[j] for r in obj.items], 'ndarray') for j in range(len(obj.items[0].items))], 'ndarray')
+            if not obj.items or not isinstance(obj.items[0], VList):
+                return obj
+            raise Unsupported('.T of an array of rank > 2')
         if name == 'data' and obj.kind == 'ndarray':
             return obj            # the underlying buffer of a (masked) array: same entries, shared
         if name in ('shape', 'ndim') and obj.kind == 'ndarray':
@@ -1614,6 +1681,8 @@ class Executor:
                 return self.module_global(sub, name)
             except KeyError:
                 return Tm('lib:%s.%s' % (sub.name, name))
+        if module in ('numpy', 'np') and name == 'newaxis':
+            return None
         if module:
             lib = self.lib_attr(module, name)
             if lib is not None:
@@ -1644,7 +1713,13 @@ class Executor:
                 return PyFn(lambda x: is_scalar(x), 'numpy.isscalar')
             if name in ('isnan', 'isinf'):
                 # reals are never NaN / infinite (floats as reals)
-                return PyFn(lambda x, _n=name: False if is_scalar(exact(x)) else Tm('call:lib:numpy.' + _n, x), 'numpy.' + name)
+                def nonfinite(x, _n=name):
+                    if is_scalar(exact(x)):
+                        return False
+                    if isinstance(x, VList) and x.kind == 'ndarray':
+                        return VList([nonfinite(i) for i in x.items], 'ndarray')
+                    return Tm('call:lib:numpy.' + _n, x)
+                return PyFn(nonfinite, 'numpy.' + name)
             if name == 'atleast_1d':
                 return PyFn(lambda x: VList([x], 'ndarray') if is_scalar(exact(x)) else self.np_array(x), 'numpy.atleast_1d')
             if name == 'ndindex':
@@ -1700,6 +1775,52 @@ class Executor:
                         return VList([self.binop(ast.Sub(), x.items[i + 1], x.items[i]) for i in range(len(x.items) - 1)], 'ndarray')
                     return Tm('call:numpy.diff', x, *a)
                 return PyFn(diff, 'numpy.diff')
+            if name == 'dot':
+                def dot(a, b):
+                    """numpy.dot on arrays of concrete shape: sum over the last axis of a and the second-to-last (or only) axis of b"""
+                    if not (isinstance(a, VList) and isinstance(b, VList)):
+                        if is_scalar(exact(a)) or is_scalar(exact(b)):
+                            return self.binop(ast.Mult(), a, b)
+                        return Tm('call:numpy.dot', a, b)
+                    def rank(v):
+                        r = 0
+                        while isinstance(v, VList):
+                            r += 1
+                            v = v.items[0] if v.items else None
+                        return r
+                    ra, rb = rank(a), rank(b)
+                    def inner(u, w):
+                        if len(u.items) != len(w.items):
+                            raise PyRaise('ValueError', 'shapes not aligned')
+                        r = 0
+                        for x, y in zip(u.items, w.items):
+                            r = self.binop(ast.Add(), r, self.binop(ast.Mult(), x, y))
+                        return r
+                    def cols(bm):
+                        # b of rank >= 2: iterate over the last axis, giving the vectors along the second-to-last axis
+                        if rank(bm) == 2:
+                            ncol = len(bm.items[0].items)
+                            return VList([VList([row.items[j] for row in bm.items], 'ndarray') for j in range(ncol)], 'ndarray')
+                        return VList([cols(sub) for sub in bm.items], 'ndarray')
+                    def over_a(u, f):
+                        if rank(u) == 1:
+                            return f(u)
+                        return VList([over_a(x, f) for x in u.items], 'ndarray')
+                    if rb == 1:
+                        return over_a(a, lambda u: inner(u, b))
+                    if rb == 2:
+                        cb = cols(b)
+                        return over_a(a, lambda u: VList([inner(u, c) for c in cb.items], 'ndarray'))
+                    raise Unsupported('numpy.dot with a rank-%d second argument' % rb)
+                return PyFn(dot, 'numpy.dot')
+            if name in ('less', 'less_equal', 'greater', 'greater_equal', 'equal', 'not_equal'):
+                opn = {'less': ast.Lt(), 'less_equal': ast.LtE(), 'greater': ast.Gt(), 'greater_equal': ast.GtE(), 'equal': ast.Eq(), 'not_equal': ast.NotEq()}[name]
+
+                def cmp_(a, b, _o=opn):
+                    a = self.np_array(a) if isinstance(a, (list, tuple)) or (isinstance(a, VList) and a.kind != 'ndarray') else a
+                    b = self.np_array(b) if isinstance(b, (list, tuple)) or (isinstance(b, VList) and b.kind != 'ndarray') else b
+                    return self.compare(_o, a, b)
+                return PyFn(cmp_, 'numpy.' + name)
             if name in ('logical_or', 'logical_and', 'logical_xor', 'logical_not'):
                 def logical(*xs, _n=name):
                     def one(*v):
@@ -1795,6 +1916,10 @@ class Executor:
             def special(*a, _n=name, _ar=ar):
                 if len(a) == _ar and all(is_scalar(exact(x)) for x in a):
                     return uf(_n, _ar)(*[to_real(exact(x)) for x in a])
+                if len(a) == _ar and any(isinstance(x, VList) and x.kind == 'ndarray' for x in a) and all(is_scalar(exact(x)) or (isinstance(x, VList) and x.kind == 'ndarray') for x in a):
+                    m = max(len(x.items) for x in a if isinstance(x, VList))
+                    if all(len(x.items) == m for x in a if isinstance(x, VList)):
+                        return VList([special(*[x.items[i] if isinstance(x, VList) else x for x in a]) for i in range(m)], 'ndarray')     # ufunc: element-wise
                 return Tm('call:scipy.special.' + _n, *a)
             return PyFn(special, 'scipy.special.' + name)
         if modname in ('scipy.special',) and name == 'comb':
@@ -1944,9 +2069,9 @@ class Executor:
             a, b = vals
             if isinstance(a, VList) and isinstance(b, VList):
                 if len(a.items) != len(b.items) and len(a.items) == 1:
-                    return VList([self.binop(op, a.items[0], y) for y in b.items], 'ndarray')     # numpy broadcasting of a length-1 axis
+                    return VList([self.minmax(which, [a.items[0], y]) for y in b.items], 'ndarray')     # numpy broadcasting of a length-1 axis
                 if len(a.items) != len(b.items) and len(b.items) == 1:
-                    return VList([self.binop(op, x, b.items[0]) for x in a.items], 'ndarray')
+                    return VList([self.minmax(which, [x, b.items[0]]) for x in a.items], 'ndarray')
                 if len(a.items) != len(b.items):
                     raise PyRaise('ValueError', 'shape mismatch')
                 return VList([self.minmax(which, [x, y]) for x, y in zip(a.items, b.items)], 'ndarray')
